@@ -3,7 +3,7 @@ from .. import common, gen, scen, src as S, real as R, histcheck, progcheck
 from ..common import Sym
 PROP = 'C08'
 
-NAMES = [('p', 1), ('p', 2), ('q', 1), ('r', 1), ('s', 0)]
+NAMES = [('p', 1), ('p', 2), ('q', 1), ('r', 1), ('s', 0), ('once', 1)]      # a script may define a predicate under a builtin's name
 API = ['atom', 'variable', 'query', 'unify', 'makelist', 'functor', 'match_dynamic', 'ATOM_NIL', 'True', '__builtins__', 'listpair']
 
 
@@ -83,6 +83,25 @@ def history(rnd, rep):
             api = rnd.choice(API)
             ops.append(('query', api, ('all',), [[Sym('a'), 'x']] * rnd.randint(0, 2)))
         ops.extend(queries())
+    if rnd.random() < 0.3:
+        # a recursive predicate: every level of the recursion is a call like any other (its dynamic
+        # facts first, then every definition loaded for it so far)
+        V = lambda n: ('V', n)
+        el = [('elem', [V('X'), ('P', [V('X')], ('_',))], 'tru'),
+              ('elem', [V('X'), ('P', [('_',)], V('T'))], ('call', 'elem', [V('X'), V('T')]), True)]
+        lst = [Sym('f'), '.', [Sym('a'), 'a'], [Sym('f'), '.', [Sym('a'), 'b'], [Sym('a'), '[]']]]
+        ops.append(('load', 'overwrite', el))
+        ops.append(('query', 'elem', ('all',), [[Sym('v'), 0], lst]))
+        if rnd.random() < 0.7:
+            ops.append(('assert', 'elem', rnd.choice(['a', 'z']), [[Sym('a'), 'dyn'], [Sym('v'), 3]]))
+            ops.append(('query', 'elem', ('all',), [[Sym('v'), 0], lst]))
+        if rnd.random() < 0.7:
+            ops.append(('load', 'combine', [('elem', [('A', 'late'), ('_',)], 'tru')]))
+            ops.append(('query', 'elem', ('all',), [[Sym('v'), 0], lst]))
+        if rnd.random() < 0.4:
+            ops.append(('regpy', 'elem', 2, [(1, [[Sym('a'), 'py'], [Sym('v'), 0]])], None, 'explicit', False))
+            ops.append(('load', 'combine', el))
+            ops.append(('query', 'elem', ('all',), [[Sym('v'), 0], lst]))
     return ops
 
 
@@ -90,7 +109,8 @@ def run(tier):
     histcheck.run(PROP, tier, history, 600, 20000,
                   rule='random histories of 2-6 steps: load of scripts with overlapping name/arity sets (overwrite / combine; clauses with '
                        'cuts, failing clauses, cross-script references), loads that raise after defining part of their content, '
-                       'register_function (explicit, inferred, variadic arity), assert_fact, clear, calls to API names; after each step '
+                       'register_function (explicit, inferred, variadic arity), assert_fact, clear, calls to API names, a predicate under a builtin\'s name, '
+                       'a recursive predicate with dynamic facts and chained definitions; after each step '
                        'every name/arity in play (and an undefined arity) is queried; non-trivial = some query has an answer; '
                        'distinct = distinct (operation kinds, last answers)')
 
